@@ -70,6 +70,26 @@ THEOREMS = [
     "Verif.C14.add_data_reorder_witness",
     "Verif.C14.defaults_misaligned_witness",
     "Verif.C14.scatter_duplicate_witness",
+    "Verif.C14.noise_free_residual_zero",
+    "Verif.C14.noise_free_by_name_residual_zero",
+    "Verif.C14.generating_values_minimise",
+    "Verif.C14.fit_done",
+    "Verif.C14.refit_from_optimum_unchanged",
+    "Verif.C14.recovers_generating_parameters",
+    "Verif.C14.more_noise_free_data_keeps_optimum",
+    "Verif.C14.residualV_eq",
+    "Verif.C14.model_cost_is_sum_over_datasets",
+    "Verif.C14.cost_is_sum_over_datasets",
+    "Verif.C14.cost_by_name",
+    "Verif.C14.scatter_entry_chain_rule",
+    "Verif.C14.jacobian_entry_chain_rule",
+    "Verif.C14.unused_parameter_column_zero",
+    "Verif.C14.jacobianV_eq",
+    "Verif.C14.add_noise_free_data_then_refit_unchanged",
+    "Verif.C14.model_residual_length",
+    "Verif.C14.residual_length",
+    "Verif.C14.addData_dataOk",
+    "Verif.C14.collision_breaks_recovery",
 ]
 RULE = (
     "A case is a script of user actions on a real FdFit (add dataset with renamings/numeric overrides, set value/"
@@ -100,6 +120,16 @@ RULE = (
     "place as soon as add_data has returned; every query reads the samples every dataset holds (fit[model].data[name]"
     ".x/.y, bit patterns) - they must be the valid samples handed over when it was added (model: in order; oracle: as "
     "a multiset of pairs). "
+    "On every script whose models are all polynomial toys two further ops run (c14.resid, c14.fjac): every query reads the "
+    "residual VECTOR and the full Jacobian of the fit (through the function / jac callable the public fit() hands to its "
+    "optimiser - stand-in optimiser that leaves before the write-back - and through the private Fit._calculate_residual / "
+    "_calculate_jacobian while they exist; both routes must give the same numbers), every recorded least_squares call "
+    "evaluates its objective at the start and at the answer and its jac at the start; all are compared with the Lean model "
+    "(exact rationals of the doubles; residuals within 1e-9 of the magnitude of the terms, toy sensitivities normally the very "
+    "same rationals). The oracle recomputes from the property text the residual multiset (samples held x parameters by name) "
+    "and the Jacobian rows (minus the sum of x^k over the model parameters mapped to each name) at every query, and asserts on "
+    "every optimiser call that the sum of squares at the answer is not above the one at the start (slack: relative 1e-6 plus n*(1e-6*max|y|)^2: "
+    "TRF moves a start ON a bound strictly inside and stops on tolerances). "
     "Every query also reads the length of the residual vector the fit evaluates (= valid points of all datasets added "
     "so far); a fit that raises inside the optimiser from a feasible start in a box with lb < ub is a violation. Non-trivial: a fit ran to the end with >=2 datasets, an "
     "override or a fixed parameter; or an error path was hit; or >=2 datasets with an override were queried."
@@ -109,12 +139,15 @@ TRUSTED = [
     "the standard-error computation after the write-back (Fit.cov, sigma) is outside the model; an exception raised there is recorded as '!post' and not compared with the model (in the recovery stream the oracle still reports it: those fits have to return)",
     "Python str() of a numeric override is sent to the model verbatim (the code builds condition strings from it)",
     "the Jacobian probe reads the model's private `_calculate_jacobian` while that name exists and, always, the Jacobian the public fit() hands to scipy.optimize.least_squares: for one fit() call, left by an exception of the stand-in optimiser before the write-back, every parameter is freed and unboxed and then given back its value, bounds and flag; `scipy.optimize.least_squares` is looked up by the library at call time (as the recorder of the fits assumes too)",
+    "the hypotheses about the optimiser used by the refit theorems (answer inside the box; sum of squares at the answer not above the one at the start) are asserted by the oracle on every recorded call, the second up to a relative 1e-6 plus n*(1e-6*max|y|)^2 (SciPy moves a start that lies on / next to a bound strictly inside and stops on tolerances of 1e-8); the hypothesis of recovers_generating_parameters (the answer minimises the sum of squares over the box) is NOT asserted - it is what the recovery exploration samples",
+    "the values of the samples are decoded from their bit patterns by Verif.C14.bitsToRat (finite doubles; checked against struct.unpack by the residual tie on every run)",
     "the samples of a dataset travel to the model as the bit patterns of the doubles in the case (NaN entries as 0 next to the NaN masks); the model treats them as opaque values",
 ]
 ASSUMPTIONS = [
     "CondInj (hypothesis of the 'what a dataset sees' theorems): within one model, datasets with different target lists have different condition strings; false only when a parameter NAME equals the str() of a numeric override in the same position or names contain '|' (observation O-C14-A, corpus cases, reported as KNOWN-FINDING)",
     "parameter values and finite bounds are finite doubles (no NaN); model arguments are identifiers",
-    "recovery of the generating parameters is EXPLORATION only (seeded fits on noise-free data), not a theorem",
+    "recovery of the generating parameters by scipy's TRF is EXPLORATION only (seeded fits on noise-free data); the theorem recovers_generating_parameters reduces it to: identifiable + the optimiser answers a minimiser over its box",
+    "the residual / Jacobian theorems are over Rat-valued model functions and sensitivities given as parameters; the tie instantiates them with the polynomial toys only (built-in transcendental models: C12)",
 ]
 
 # ------------------------------------------------------------------ encoders
@@ -232,11 +265,52 @@ def model_param_names(spec):
     return None
 
 
+def _eval_objective(fun, x):
+    try:
+        return [float(v) for v in np.atleast_1d(np.asarray(fun(np.array(x, dtype=np.float64)), dtype=np.float64))]
+    except Exception as e:
+        return "raised-" + errname(e)
+
+
+def _eval_jac(jac, x):
+    try:
+        J = np.asarray(jac(np.array(x, dtype=np.float64)), dtype=np.float64)
+        return [[float(v) for v in row] for row in J] if J.ndim == 2 else "raised-shape"
+    except Exception as e:
+        return "raised-" + errname(e)
+
+
+def matlist(J):
+    return J if isinstance(J, str) else "[" + ",".join(ratlist(row) for row in J) + "]"
+
+
+def jacobian_full_probe(fit):
+    """The full Jacobian of the fit at its current values: the one `fit.fit()` hands to its optimiser with every
+    parameter freed (`public_jacobian`) and the private `Fit._calculate_jacobian()` while it exists; must be the same."""
+    pub = public_jacobian(fit)
+    priv = getattr(fit, "_calculate_jacobian", None)
+    prv = None
+    if priv is not None and getattr(fit, "has_jacobian", False):
+        try:
+            prv = np.asarray(priv(), dtype=np.float64)
+        except TypeError as e:
+            if e.__traceback__ is None or e.__traceback__.tb_next is not None:
+                raise
+            prv = None
+    RESID["jac:public" + ("" if pub is not None else ":unavailable")] += 1
+    RESID["jac:private" + ("" if prv is not None else ":unavailable")] += 1
+    if pub is not None and prv is not None and (pub.shape != prv.shape or pub.tobytes() != prv.tobytes()) and pub.size:
+        return f"the-fit's-own-jacobian-{matlist(prv.tolist())}-is-not-what-fit()-hands-to-its-optimiser-{matlist(pub.tolist())}"
+    J = pub if pub is not None else prv
+    return "?" if J is None else matlist([[float(v) for v in row] for row in J])
+
+
 class Recorder:
     """records scipy.optimize.least_squares (the optimiser is a parameter of the model, not modelled)"""
 
-    def __init__(self):
+    def __init__(self, resid=False):
         self.calls = []
+        self.resid = resid  # also evaluate the function handed to the optimiser at the start point and at the answer
 
     def __enter__(self):
         import scipy.optimize
@@ -265,12 +339,20 @@ class Recorder:
                 entry["lb"] = [float(v) for v in np.atleast_1d(np.asarray(b[0], dtype=float))]
                 entry["ub"] = [float(v) for v in np.atleast_1d(np.asarray(b[1], dtype=float))]
             rec.calls.append(entry)
+            if rec.resid:
+                # what the fit's objective answers at the start point (the closure of Fit._fit: parameter_vector[fitted]
+                # = params; Fit._calculate_residual(parameter_vector)) - evaluated before the optimiser starts
+                entry["r0"] = _eval_objective(fun, x0)
+                jac = kw.get("jac")
+                entry["j0"] = _eval_jac(jac, x0) if callable(jac) else "2p"  # the `jac` closure of Fit._fit at the start
             try:
                 r = rec.orig(fun, x0, *a, **kw)
             except Exception as e:
                 entry["err"] = errname(e)
                 raise
             entry["x"] = [float(v) for v in r.x]
+            if rec.resid:
+                entry["r1"] = _eval_objective(fun, r.x)  # ... and at the answer (what Fit._fit writes back next)
             entry["cost"] = float(r.cost)
             entry["nfev"] = int(r.nfev)
             return r
@@ -281,6 +363,11 @@ class Recorder:
     def __exit__(self, *a):
         self.mod.least_squares = self.orig
         return False
+
+
+import collections as _collections
+
+GROUPS = _collections.Counter()  # which branch of the grouping the queries went through
 
 
 def observe(fit, models, strict=True):
@@ -314,6 +401,8 @@ def observe(fit, models, strict=True):
         byidx = {}
         for cond, dl in ds.conditions():
             v = cond.get_local_params(vals)
+            GROUPS["datasets per condition = " + str(len(dl))] += 1
+            GROUPS["datasets evaluated with the Condition of an earlier dataset"] += max(0, len(dl) - 1)
             for d in dl:
                 byidx[d.name] = v
                 if seen is not None and id(d.x) in seen:
@@ -347,7 +436,7 @@ class _ProbeDone(Exception):
     """raised by the stand-in optimiser of `public_jacobian` to leave `fit()` before anything is written back"""
 
 
-def public_jacobian(fit):
+def public_jacobian(fit, want_residual=False):
     """The Jacobian the fit hands to its optimiser, over ALL parameters of the table, by public names only: for the
     moment of ONE `fit.fit()` every parameter is freed and unboxed (so that the fit is entitled to run whatever the
     table says and every column is a fitted one), `scipy.optimize.least_squares` is a stand-in that evaluates the
@@ -363,6 +452,9 @@ def public_jacobian(fit):
 
     def stand_in(fun, x0, *a, **kw):
         jac = kw.get("jac", a[0] if a else None)
+        if want_residual:
+            got["r"] = _eval_objective(fun, x0)
+            raise _ProbeDone()
         got["J"] = np.array(jac(np.array(x0, dtype=np.float64)), dtype=np.float64) if callable(jac) else None
         raise _ProbeDone()
 
@@ -380,8 +472,45 @@ def public_jacobian(fit):
         scipy.optimize.least_squares = orig
         for p, v, lo, hi, fx in saved:
             p.value, p.lower_bound, p.upper_bound, p.fixed = v, lo, hi, fx
+    if want_residual:
+        return got.get("r")
     J = got.get("J")
     return J if J is not None and J.ndim == 2 and J.shape[1] == len(saved) else None
+
+
+def residual_probe(fit):
+    """The residual vector the fit evaluates at its current parameter values.  Two routes, as for the Jacobian probe:
+    the function the public `fit.fit()` hands to its optimiser, evaluated at the start point by a stand-in optimiser
+    that leaves before anything is written (every parameter freed and unboxed for that one call, then put back), and
+    the private `Fit._calculate_residual()` while that name exists; both are read whenever they can be had and must
+    be the same vector.  '?' (ignored by `agree` and the oracle) when neither can be had (e.g. no parameter at all
+    and the private name gone)."""
+    pub = public_jacobian(fit, want_residual=True)
+    priv = getattr(fit, "_calculate_residual", None)
+    prv = None
+    if priv is not None:
+        try:
+            prv = [float(v) for v in priv()]
+        except TypeError as e:
+            if e.__traceback__ is None or e.__traceback__.tb_next is not None:
+                raise
+            prv = None
+    RESID["probe:public" + ("" if pub is not None else ":unavailable")] += 1
+    RESID["probe:private" + ("" if prv is not None else ":gone")] += 1
+    if isinstance(pub, str):
+        return pub
+    if pub is not None and prv is not None and [bits(v) for v in pub] != [bits(v) for v in prv]:
+        return f"the-fit's-own-residual-{ratlist(prv)}-is-not-what-fit()-hands-to-its-optimiser-{ratlist(pub)}"
+    r = pub if pub is not None else prv
+    return "?" if r is None else ratlist(r)
+
+
+RESID = {"jac:public": 0, "jac:public:unavailable": 0, "jac:private": 0, "jac:private:unavailable": 0,
+         "jac:entries_compared_with_model": 0, "jac:matrices_compared_with_model": 0, "jac:two-point(no analytic Jacobian)": 0,
+         "oracle:jac_rows_recomputed": 0, "probe:public": 0, "probe:public:unavailable": 0, "probe:private": 0, "probe:private:gone": 0,
+         "entries_compared_with_model": 0, "vectors_compared_with_model": 0, "vectors_all_zero(noise-free at the table values)": 0,
+         "oracle:entries_recomputed": 0, "oracle:descent_checked": 0, "oracle:refit_from_zero_residual": 0,
+         "non_finite_entries_skipped": 0}
 
 
 PRIVATE_TIES = {"Model._calculate_jacobian": 0, "Model._calculate_jacobian:gone": 0, "jacobian-through-fit()": 0,
@@ -491,6 +620,9 @@ def run_script(case):
     fit = lk.FdFit(*models)
     caller = Caller(case)
     obs = []
+    jcs = []  # Jacobian observations (polynomial toy models only): one per query / fit
+    res = []  # residual observations (polynomial toy models only): one per query / fit
+    poly = all(sp["kind"] == "poly" for sp in case["models"])
     fits = []
     mtab = [[(k, None if p is None else (p.value, p.lower_bound, p.upper_bound, bool(p.fixed))) for k, p in m.defaults.items()] for m in models]  # `Model.defaults`: the public view of the model's parameter table
     for act in case["actions"]:
@@ -526,7 +658,7 @@ def run_script(case):
             except Exception as e:
                 obs.append("set:" + errname(e))
         elif a == "fit":
-            with Recorder() as rec:
+            with Recorder(resid=poly) as rec:
                 try:
                     fit.fit()
                     err = None
@@ -535,6 +667,16 @@ def run_script(case):
             call = rec.calls[0] if rec.calls else None
             COUNTS["optimiser_calls"] += len(rec.calls)
             fits.append({"call": call, "err": err})
+            if poly:
+                def _rl(v):
+                    return v if isinstance(v, str) else ratlist(v)
+                if call is None or "r0" not in call:
+                    res.append("f-")
+                elif "r1" in call:
+                    res.append("f" + _rl(call["r0"]) + ">" + _rl(call["r1"]))
+                else:
+                    res.append("f" + _rl(call["r0"]))
+                jcs.append("f-" if call is None or "j0" not in call else "f" + matlist(call["j0"]))
             if call is None:
                 obs.append("fit:" + (err or "ok-without-optimiser"))
             elif "x" not in call:
@@ -550,6 +692,15 @@ def run_script(case):
                 obs.append(observe(fit, models, strict=all(s["kind"] == "poly" for s in case["models"]) or case.get("truth") is not None))
             except Exception as e:
                 obs.append("query-raised:" + errname(e))
+            if poly:
+                try:
+                    res.append("q" + residual_probe(fit))
+                except Exception as e:
+                    res.append("q-raised:" + errname(e))
+                try:
+                    jcs.append("q" + jacobian_full_probe(fit))
+                except Exception as e:
+                    jcs.append("q-raised:" + errname(e))
         elif a == "jac":
             try:
                 obs.append(jac_probe(fit, models, act["mi"], act["name"], act["sens"]))
@@ -557,7 +708,7 @@ def run_script(case):
                 obs.append("J:" + errname(e))
         else:
             raise ValueError(a)
-    return obs, fits, mtab
+    return obs, fits, mtab, ((res, jcs) if poly else None)
 
 
 def _show_unique(u, inv):
@@ -609,9 +760,9 @@ def impl(case):
         if prv is not None and prv != pub:
             return [f"helpers-say-{prv}-the-fit-says-{pub}"]
         return [pub]
-    obs, fits, mtab = run_script(case)
+    obs, fits, mtab, res = run_script(case)
     _CACHE[_key(case)] = (fits, mtab)
-    return [";".join(obs)]
+    return [";".join(obs)] if res is None else [";".join(obs), ";".join(res[0]), ";".join(res[1])]
 
 
 def enc_default(d):
@@ -674,6 +825,8 @@ def ops(case):
             toks += ["Q"]
         elif a == "jac":
             toks += ["J", str(act["mi"]), showstr(act["name"]), ratlist(act["sens"])]
+    if all(sp["kind"] == "poly" for sp in case["models"]):
+        return [" ".join(toks), " ".join(["c14.resid"] + toks[1:]), " ".join(["c14.fjac"] + toks[1:])]
     return [" ".join(toks)]
 
 
@@ -699,9 +852,110 @@ def _ans_agree(ia, ma):
     return len(i) == len(m) and all(_obs_agree(a, b) for a, b in zip(i, m))
 
 
+RESID_TOL = 1e-9  # DESIGN 2.2: the implementation's double against the exact rational, relative to the magnitude of the terms
+
+
+def _flist(s_):
+    """'[p/q,...]' -> floats (int/int true division is correctly rounded: the exact double when p/q is one)"""
+    body = s_[1:-1]
+    if body == "":
+        return []
+    out = []
+    for x in body.split(","):
+        p_, q_ = x.split("/")
+        out.append(int(p_) / int(q_))
+    return out
+
+
+def _vec_close(iv, mv, sc):
+    """implementation's residual vector (exact rationals of its doubles) against the model's exact one"""
+    if len(iv) != len(mv) or len(sc) != len(mv):
+        return False
+    # doubles: each side is rounded by at most 1e-16 of the term magnitudes, far below the tolerance
+    for a, b, s_ in zip(iv, mv, sc):
+        if not abs(a - b) <= RESID_TOL * s_ + 1e-300:
+            return False
+    RESID["entries_compared_with_model"] += len(mv)
+    RESID["vectors_compared_with_model"] += 1
+    if mv and all(b == 0 for b in mv):
+        RESID["vectors_all_zero(noise-free at the table values)"] += 1
+    return True
+
+
+def _resid_obs_agree(io, mo):
+    if io in ("q?",):
+        return True
+    if io[:1] != mo[:1]:
+        return False
+    if io == "f-" or mo == "f-":
+        return io == mo
+    ip, mp = io[1:].split(">"), mo[1:].split(">")
+    if len(ip) != len(mp):
+        return False
+    for a, b in zip(ip, mp):
+        if not a.startswith("[") or "~" not in b:
+            return False
+        mv, sc = b.split("~")
+        if "bad-float" in a:
+            RESID["non_finite_entries_skipped"] += 1
+            continue
+        if not _vec_close(_flist(a), _flist(mv), _flist(sc)):
+            return False
+    return True
+
+
+def parse_mat(s_):
+    body = s_[1:-1]
+    return [] if body == "" else [parse_ratlist("[" + r + "]") for r in body[1:-1].split("],[")]
+
+
+def _jac_obs_agree(io, mo):
+    if io in ("q?", "f2p"):
+        if io == "f2p":
+            RESID["jac:two-point(no analytic Jacobian)"] += 1
+        return True
+    if io[:1] != mo[:1]:
+        return False
+    if io == "f-" or mo == "f-":
+        return io == mo
+    if not io[1:].startswith("[") or "bad-float" in io:
+        return False
+    if io == mo:  # the toy sensitivities are exact dyadic numbers: normally the very same rationals
+        RESID["jac:entries_compared_with_model"] += mo.count("/")
+        RESID["jac:matrices_compared_with_model"] += 1
+        return True
+    a, b = parse_mat(io[1:]), parse_mat(mo[1:])
+    if len(a) != len(b):
+        return False
+    for ra, rb in zip(a, b):
+        if len(ra) != len(rb) or any(abs(x - y) > Fraction(RESID_TOL) * max(1, abs(y)) for x, y in zip(ra, rb)):
+            return False
+        RESID["jac:entries_compared_with_model"] += len(rb)
+    RESID["jac:matrices_compared_with_model"] += 1
+    return True
+
+
+def _jac_agree(ia, ma):
+    if ia == "" and ma == "":
+        return True
+    i, m = ia.split(";"), ma.split(";")
+    return len(i) == len(m) and all(_jac_obs_agree(a, b) for a, b in zip(i, m))
+
+
+def _resid_agree(ia, ma):
+    if ia == "" and ma == "":
+        return True
+    i, m = ia.split(";"), ma.split(";")
+    return len(i) == len(m) and all(_resid_obs_agree(a, b) for a, b in zip(i, m))
+
+
 def agree(case, i, ia, ma):
     if case["op"] == "unique":
         return ia == ma
+    if i == 1:
+        return any(_resid_agree(ia, alt) for alt in ma.split(" || "))
+    if i == 2:
+        return any(_jac_agree(ia, alt) for alt in ma.split(" || "))
     alts = ma.split(" || ")
     if len(alts) == 1:
         if _ans_agree(ia, alts[0]):
@@ -793,9 +1047,132 @@ def cond_string(targets):
     return "|".join(str(t) for t in targets)
 
 
+def _bits_to_frac(b):
+    return Fraction(struct.unpack("<d", struct.pack("<Q", int(b)))[0])
+
+
+def _oracle_resid(case, ia):
+    """Clauses about the VALUES the fit evaluates, recomputed in plain Python from the property text (not from the
+    model): (a) at every query the residual vector is, as a multiset, {y - sum_k p_k x^k} over the samples every
+    dataset holds with p = the dataset's parameters read BY NAME from the table (a shared name: one value, a renamed
+    one: its own, a constant: itself) - this is what "every dataset sees" means for the number the optimiser
+    minimises; (b) the optimiser's contract used by the refit theorem: the sum of squares at its answer is not above
+    the one at its start (asserted on every recorded call, like OptInBox); (c) re-fitting from a point where the
+    residual is exactly zero (noise-free data at the optimum) ends with a residual that is still (numerically) zero."""
+    obs = ia[0].split(";")
+    res = ia[1].split(";") if ia[1] else []
+    jcs = ia[2].split(";") if len(ia) > 2 and ia[2] else []
+    pn = [model_param_names(sp) for sp in case["models"]]
+    targets = [dict() for _ in case["models"]]  # per model: dataset -> what its model parameters are mapped to
+    k = 0
+    for act, o in zip(case["actions"], obs):
+        if act["a"] == "add" and o == "add:ok":
+            ov = act.get("ov", {})
+            targets[act["mi"]][act["name"]] = [ov.get(p_, {"n": p_}) for p_ in pn[act["mi"]]]
+        if act["a"] not in ("query", "fit"):
+            continue
+        # a wrong value on an input with a condition-string collision (O-C14-A, known finding) is reported under that class
+        coll = False
+        for tm in targets:
+            tl = [[t["n"] if "n" in t else t["c"] for t in tg] for tg in tm.values()]
+            cs = [cond_string(t) for t in tl]
+            coll = coll or any(cs[i_] == cs[j_] and [type(v) for v in tl[i_]] + tl[i_] != [type(v) for v in tl[j_]] + tl[j_] for i_ in range(len(tl)) for j_ in range(i_))
+        if act["a"] == "query" and k < len(jcs) and jcs[k].startswith("q[") and o.startswith("T[") and "bad-" not in jcs[k]:
+            # (d) the Jacobian of the fit: the row of a sample x of a dataset has, in the column of the global parameter
+            # n, minus the sum of x^k over ALL model parameters k the dataset maps to n (chain rule: one term per path),
+            # zero in the column of a parameter the dataset does not use - compared as a multiset of rows
+            names = [r_[0] for r_ in parse_table(o.split(" L", 1)[0])]
+            jb = jcs[k][2:-1]
+            got = _collections.Counter(jb[1:-1].split("],[")) if jb else _collections.Counter()
+            exp = _collections.Counter()
+            nexp = 0
+            for mi_, hm in enumerate(parse_held(o)):
+                for name, (xb, _) in hm.items():
+                    tg = targets[mi_].get(name)
+                    if tg is None:
+                        exp = None
+                        break
+                    cols = [[j for j, t in enumerate(tg) if t.get("n") == n_] for n_ in names]
+                    for b_ in xb:
+                        xv = _bits_to_frac(b_)
+                        pw = [xv**j for j in range(len(tg))]
+                        row = [-sum((pw[j] for j in c_), Fraction(0)) for c_ in cols]
+                        exp[",".join(f"{v.numerator}/{v.denominator}" for v in row)] += 1
+                        nexp += 1
+                if exp is None:
+                    break
+            if exp is not None:
+                RESID["oracle:jac_rows_recomputed"] += nexp
+                def _close_rows(g_, e_):
+                    # not the very same rationals (an x whose powers are rounded in doubles): compare as numbers
+                    gr = sorted(_flist("[" + r_ + "]") for r_ in g_.elements())
+                    er = sorted(_flist("[" + r_ + "]") for r_ in e_.elements())
+                    return len(gr) == len(er) and all(len(a_) == len(b_) and all(abs(u - v) <= RESID_TOL * max(1.0, abs(v)) for u, v in zip(a_, b_)) for a_, b_ in zip(gr, er))
+                if got != exp and not _close_rows(got, exp):
+                    bad = next(iter((got - exp).keys()), None)
+                    return (("sees[condition-string-collision]: " if coll else "") + f"jacobian-matrix: d(residual)/d(parameters {names}) handed to the optimiser is not the chain-rule sum over the "
+                            f"parameters each dataset maps to each name: {sum(got.values())} rows, expected {nexp}; a row that should not be there: [{bad}]")
+        if k >= len(res):
+            return f"residual: no residual observation for action {act['a']}"
+        r = res[k]
+        k += 1
+        if act["a"] == "query":
+            if r == "q?" or not o.startswith("T["):
+                continue
+            if not r.startswith("q["):
+                return f"residual: the residual of the fit could not be evaluated at a query: {r[:120]}"
+            if "bad-" in r:
+                continue
+            got = sorted(_flist(r[1:]))
+            _, per = parse_query(o)
+            held = parse_held(o)
+            exp = []
+            scale = 1.0
+            skip = False
+            for dsm, hm in zip(per, held):
+                for name, (_, byname) in dsm.items():
+                    if byname is None or name not in hm:
+                        skip = True
+                        continue
+                    pf = [float(v) for v in byname]
+                    for xb, yb in zip(*hm[name]):
+                        xv = struct.unpack("<d", struct.pack("<Q", int(xb)))[0]
+                        yv = struct.unpack("<d", struct.pack("<Q", int(yb)))[0]
+                        terms = [pk * xv**j for j, pk in enumerate(pf)]
+                        exp.append(yv - math.fsum(terms))
+                        scale = max(scale, abs(yv) + math.fsum(abs(t) for t in terms))
+            if skip:
+                continue
+            exp.sort()
+            RESID["oracle:entries_recomputed"] += len(exp)
+            if len(exp) != len(got) or any(not abs(a - b) <= RESID_TOL * scale for a, b in zip(got, exp)):
+                return (("sees[condition-string-collision]: " if coll else "") + f"residual: the fit evaluates the residual {got[:12]} (sorted) but the samples the datasets hold and the "
+                        f"parameters each dataset is mapped to (by name) give {exp[:12]}")
+        else:
+            if r == "f-" or ">" not in r or "bad-" in r or "raised" in r:
+                continue
+            a, b = r[1:].split(">")
+            c0 = math.fsum(v * v for v in _flist(a))
+            c1 = math.fsum(v * v for v in _flist(b))
+            RESID["oracle:descent_checked"] += 1
+            # absolute slack: TRF moves a start that lies ON a bound strictly inside (relative step 1e-10) and stops on
+            # tolerances of 1e-8, so from an exactly zero residual it may end at ~1e-10 of the data scale, not at 0
+            ymax = max([1.0] + [abs(v) for a_ in case["actions"] if a_["a"] == "add" for v in a_["y"] if not math.isnan(v)])
+            # relative slack: at a bound-constrained optimum TRF returns the start moved inside by ~1e-9 (thorough seed 0:
+            # 1.2500000000001 -> 1.2500000027)
+            if not c1 <= c0 * (1 + 1e-6) + max(1, len(_flist(b))) * (1e-6 * ymax) ** 2:
+                return f"optimiser-contract: least_squares answered a point with a larger sum of squares ({float(c1)!r}) than its start ({float(c0)!r})"
+            if c0 == 0:
+                RESID["oracle:refit_from_zero_residual"] += 1
+    return None
+
+
 def oracle(case, ia):
     try:
-        return _oracle(case, ia)
+        r = _oracle(case, ia)
+        if r is None and case["op"] == "script" and len(ia) > 1:
+            r = _oracle_resid(case, ia)
+        return r
     except Exception as e:  # an observation the oracle cannot read is not an acceptable answer
         return f"unreadable: the implementation's observations could not be interpreted ({e!r}): {ia[0][:300]}"
 
@@ -1680,6 +2057,8 @@ def extra_coverage(results):
         "variant_the_implementation_followed": dict(VARIANT),
         "counts": dict(COUNTS),
         "private_ties": dict(PRIVATE_TIES),
+        "residual_tie": dict(RESID),
+        "condition_groups_at_queries": dict(GROUPS),
         "recovery_exploration": recover,
         "exhaustive": False,
         "exhaustive_note": "the small-scope stream enumerates its finite space completely; the random and recovery streams do not; recovery of generating parameters is exploration, not proof",
